@@ -94,6 +94,39 @@ Theorem C03_send_complete : forall e0 s0 (todo0 : nat -> list job) (sched : list
   Forall (fun j => fst j = app_code /\ 0 < zlen (snd j) <= MAX_APP_DATA_RECORD_SIZE) (wire_of tid w).
 Proof. exact send_complete. Qed.
 
+(* the start of the connection: sender tasks may already spin on send() while the runner finishes the
+   handshake (schedule element None = runner, Some tid = sender). With the order of the runner's three shared
+   accesses as in the source (regenerated flag: counters stored BEFORE Connected is published), all datagrams
+   carry the final handshake epoch and pairwise distinct sequence numbers >= ctx.sequence_number -- never a
+   nonce of the handshake's own records (Finished is numbered below it) *)
+Theorem C03_seq_unique_from_connect : forall e0 s0 (todo : nat -> list job) (sched : list (option nat)),
+  0 <= s0 -> s0 + Z.of_nat (length sched) <= 2 ^ 48 ->
+  let w := c_w (crun (cinit connected_published_after_stores e0 s0 todo) sched) in
+  NoDup (map w_seq (g_wire w)) /\
+  (forall r, In r (g_wire w) -> w_epoch r = e0 /\ s0 <= w_seq r < 2 ^ 48).
+Proof. exact seq_unique_from_connect. Qed.
+
+(* the order before fix 9dff55e (Connected published first) is refuted in the same machine: a record numbered
+   (epoch 0, seq 0) -- observed on the real code by the stress run --, a record with (1, 0) = the nonce of
+   Finished, and two records with equal sequence numbers *)
+Theorem C03_connect_window_refuted :
+  old_order_wire [None; Some 0; Some 0; Some 0]%nat = [(23, 0, 0)] /\
+  old_order_wire [None; None; Some 0; Some 0; Some 0]%nat = [(23, 1, 0)] /\
+  old_order_wire [None; None; Some 0; Some 0; Some 0; Some 0; Some 0; None; Some 0; Some 0; Some 0; Some 0]%nat
+    = [(23, 1, 0); (23, 1, 1); (23, 1, 1)].
+Proof. exact connect_window_refuted. Qed.
+
+(* the ends of the size range *)
+Theorem C03_send_empty : forall (seal : list Z -> list Z -> list Z -> list Z -> list Z) key iv s,
+  send seal key iv s [] = (s, []).
+Proof. exact send_empty. Qed.
+
+Theorem C03_send_1MiB : forall (seal : list Z -> list Z -> list Z -> list Z -> list Z) key iv epoch seq0 data,
+  zlen data = 1048576 -> 0 <= seq0 -> seq0 + 874 < 2 ^ 64 ->
+  length (snd (send seal key iv (mkTx epoch seq0) data)) = 874%nat /\
+  fst (send seal key iv (mkTx epoch seq0) data) = mkTx epoch (seq0 + 874).
+Proof. exact send_1MiB. Qed.
+
 (* ------------------------------------------------------------------ receive side *)
 
 (* DtlsRecord::decode never panics (shared with C07) *)
@@ -129,17 +162,72 @@ Proof. exact alert_only_authentic. Qed.
 
 (* C03_accept, part 3: a record that does not authenticate (plaintext epoch 0, or `open` fails: truncated,
    bit-flipped, wrong key, wrong nonce, wrong AAD) leaves the receiver unchanged, delivers nothing and raises
-   no error -- for every content type once the handshake is over, and during the final flight for every
-   type except the handshake protocol's own epoch-0 records (Handshake / ChangeCipherSpec, which are
-   authenticated by Finished, not by the record layer) *)
+   no error -- for every content type once the handshake is over, and during the final flight (keys derived,
+   still Handshaking) for every content type except ChangeCipherSpec *)
 Theorem C03_reject_unauthentic : forall open H hs_step is_client (st : rx H) r k,
   rx_keys st = Some k -> unauthentic open is_client k r ->
-  (rx_state st <> Handshaking \/
-   (r_type r <> ContentType_Handshake /\ r_type r <> ContentType_ChangeCipherSpec)) ->
+  (rx_state st <> Handshaking \/ r_type r <> ContentType_ChangeCipherSpec) ->
   rs_state H (record_step open H hs_step is_client st r) = st /\
   rs_out H (record_step open H hs_step is_client st r) = [] /\
   rs_err H (record_step open H hs_step is_client st r) = false.
 Proof. exact unauthentic_inert. Qed.
+
+(* ... and the exception exactly: an unauthenticated ChangeCipherSpec delivers nothing, raises nothing, and either
+   changes nothing or (epoch 0, still Handshaking) increments the saturating read-epoch counter -- a field no
+   function of the record layer reads *)
+Theorem C03_handshaking_ccs_effect : forall open H hs_step is_client (st : rx H) r k,
+  rx_keys st = Some k -> unauthentic open is_client k r -> r_type r = ContentType_ChangeCipherSpec ->
+  rs_out H (record_step open H hs_step is_client st r) = [] /\
+  rs_err H (record_step open H hs_step is_client st r) = false /\
+  (rs_state H (record_step open H hs_step is_client st r) = st \/
+   (rx_state st = Handshaking /\ r_epoch r = RX_PLAIN_EPOCH /\
+    rs_state H (record_step open H hs_step is_client st r) = bump_read_epoch H st)).
+Proof. exact handshaking_ccs_effect. Qed.
+
+(* complete characterisation: once keys exist, whatever a record changes in the receiver -- connection state,
+   handshake context (hs_step is arbitrary: retransmission triggers, transcript, message_seq ...), liveness --
+   it either authenticates under the read key, or it is that read-epoch increment. So after key derivation the
+   handshake machinery is never run on unauthenticated input: no forged Finished, no message_seq / transcript
+   skew, no retransmission trigger *)
+Theorem C03_change_needs_authentic : forall open H hs_step is_client (st : rx H) r k,
+  rx_keys st = Some k -> rs_state H (record_step open H hs_step is_client st r) <> st ->
+  authentic open is_client k r \/
+  (rx_state st = Handshaking /\ r_epoch r = RX_PLAIN_EPOCH /\ r_type r = ContentType_ChangeCipherSpec /\
+   rs_state H (record_step open H hs_step is_client st r) = bump_read_epoch H st).
+Proof. exact change_needs_authentic. Qed.
+
+(* replay, pinned: the receiver keeps no per-record state, so an authenticated ApplicationData record is
+   delivered and leaves the receiver exactly as it was (there is no anti-replay window) ... *)
+Theorem C03_replay_no_state : forall open H hs_step is_client (st : rx H) r k p,
+  rx_keys st = Some k -> r_type r = ContentType_ApplicationData -> r_epoch r <> RX_PLAIN_EPOCH ->
+  rec_open open is_client k r = Some p ->
+  record_step open H hs_step is_client st r = Next st [p].
+Proof. exact authentic_app_step. Qed.
+
+(* ... hence n copies of a genuine datagram are delivered n times and change nothing else *)
+Theorem C03_replay_redelivers : forall (seal : list Z -> list Z -> list Z -> list Z -> list Z) open H hs_step,
+  (forall k n a m, open k n a (seal k n a m) = Some m) ->
+  (forall k n a m, zlen (seal k n a m) = zlen m + GCM_TAG_LEN) ->
+  forall (c : bool) (k : keys) epoch seq pt (st : rx H) (n : nat),
+    0 < epoch < 2 ^ 16 -> 0 <= seq < 2 ^ 48 -> zlen pt <= MAX_APP_DATA_RECORD_SIZE ->
+    rx_keys st = Some k -> rx_alive st = true ->
+    recv_all open H hs_step (negb c) st (repeat (tx_record seal (wkey c k) (wiv c k) epoch seq pt) n)
+    = (st, repeat pt n).
+Proof. exact replay_redelivers. Qed.
+
+(* partial records: a datagram whose first record is incomplete (truncated, split across datagrams, length
+   field larger than what follows) or has an invalid content type has no effect at all; and every strict
+   prefix of a well-formed record is such a datagram *)
+Theorem C03_partial_datagram_inert : forall open H hs_step is_client (st : rx H) data,
+  decode data = Ok None \/ decode data = Err ->
+  recv_datagram open H hs_step is_client st data = (st, []).
+Proof. exact partial_datagram_inert. Qed.
+
+Theorem C03_prefix_of_record_is_partial : forall code ct major minor epoch seq payload n,
+  content_type_of_u8 code = Some ct -> zlen payload < 2 ^ 16 ->
+  (n < 13 + length payload)%nat ->
+  decode (firstn n ([code; major; minor] ++ be 2 epoch ++ be 6 seq ++ be 2 (zlen payload) ++ payload)) = Ok None.
+Proof. exact prefix_of_record_is_partial. Qed.
 
 Theorem C03_unauthentic_iff_not_authentic : forall open is_client k r,
   unauthentic open is_client k r <-> ~ authentic open is_client k r.
